@@ -5,6 +5,7 @@ import (
 	"errors"
 	"fmt"
 	"io"
+	"strings"
 	"syscall"
 
 	libaudit "github.com/elastic/go-libaudit/v2"
@@ -322,6 +323,29 @@ func checkC16(tier string) int {
 		s := sim.Sends[0]
 		if len(sim.Sends) != 1 || s.Type != uapiAuditGet || s.Flags != syscall.NLM_F_REQUEST|syscall.NLM_F_ACK || len(s.Data) != 0 {
 			rep("getstatus-request", "GetStatus sent %d requests; first: type %d flags %#x payload %d bytes; want one AUDIT_GET=1000 with REQUEST|ACK and no payload", len(sim.Sends), s.Type, s.Flags, len(s.Data))
+		}
+	}
+	// transient receive failures before the acknowledgement AND between it and the reply (each position within
+	// the tolerated budget, any combination): GetStatus still returns the kernel's fields
+	for _, fa := range []int{0, 1, 2, 3, 4} { // deliver, 1-EINTR, 9-EINTR, 9-EAGAIN, 9-alternating
+		for _, fd := range []int{0, 1, 2, 3, 4} {
+			for _, evs := range []int{0, 1, 2} { // unsolicited events in front of the reply, too
+				sim := ksim.New(labelChooser{"fail-before-ack": fa, "fail-before-data": fd, "events-before-data": evs, "fail-after-events-data": fd})
+				sim.Status = inc
+				c := &libaudit.AuditClient{Netlink: sim}
+				st, err := c.GetStatus()
+				evals++
+				if err != nil || st == nil {
+					rep("getstatus-error-under-tolerated-faults", "GetStatus returned %v although the kernel acknowledged and replied; transient failures injected: %v (each within the tolerated budget) | kernel log: %s", err, devNames(sim.Devs), tailStr(strings.Join(sim.Log, " "), 600))
+					continue
+				}
+				got := [11]uint32{uint32(st.Mask), st.Enabled, st.Failure, st.PID, st.RateLimit, st.BacklogLimit, st.Lost, st.Backlog, st.FeatureBitmap, st.BacklogWaitTime, st.BacklogWaitTimeActual}
+				if got != inc {
+					rep("getstatus-layout", "GetStatus under transient failures %v decoded %v, kernel sent %v", devNames(sim.Devs), got, inc)
+					continue
+				}
+				nontrivial++
+			}
 		}
 	}
 	// the AUDIT_GET reply overtakes its acknowledgement (the kernel never does that): refusing is fine,
